@@ -1105,6 +1105,100 @@ def _t_mixed(g):
         getattr(sys.modules[__name__], "_t_" + b)(g)
 
 
+def _t_keys(g, allow_derived_param=True, allow_permuted=True):
+    """C23: parameter-space shapes.  1-3 classes of independent tasks with 1-4 parameters: negative and
+    expression bounds, steps, bounds that depend on earlier parameters (triangles, windows), derived locals
+    in the nest; sometimes a parameter defined by an expression, sometimes a header order different from
+    the definition order (both are reported by C23's oracle, see notes/findings)."""
+    r = g.r
+    for _ in range(r.range(1, 3)):
+        c = Cls(next(g.names))
+        g.p.classes.append(c)
+        ci = len(g.p.classes) - 1
+        np_ = r.pick([1, 2, 2, 3, 3, 4])
+        budget = 48
+        pnames = ["k", "m", "n", "q"]
+        plist = []                  # local indices of the parameters, definition order
+        info = []                   # (local index, lo value known?, lo_expr, st) of the previous parameters
+        for d in range(np_):
+            size = max(1, min(r.range(1, 6), budget))
+            budget = max(1, budget // size)
+            st = r.pick([1, 1, 1, 2, 3])
+            kind = r.pick(["rect", "rect", "neg", "expr", "tri", "window", "derivedbound"]) if d > 0 else \
+                r.pick(["rect", "rect", "neg", "expr"])
+            if kind == "rect":
+                lo = C(r.pick([0, 0, 1, -1, -2, 3]))
+                hi = simp(B("add", lo, C(st * (size - 1))))
+            elif kind == "neg":                       # all values negative (the generated max starts at 0)
+                lo = C(-(st * (size - 1)) - r.range(1, 4))
+                hi = simp(B("add", lo, C(st * (size - 1))))
+            elif kind == "expr":
+                gi = g.new_global(r.range(1, 5))
+                lo = simp(B("sub", G(gi), C(r.range(0, 6))))
+                hi = simp(B("add", lo, B("mul", C(st), g.count_expr(size))))
+            elif kind == "tri":                       # upper bound grows with the previous parameter
+                pl, plo, pst = info[-1]
+                lo = C(r.pick([0, -1, 2]))
+                hi = simp(B("add", lo, B("mul", C(st), B("div", B("sub", L(pl), plo), C(pst)))))
+            elif kind == "window":                    # a window around the previous parameter
+                pl, plo, pst = info[-1]
+                lo = simp(B("sub", L(pl), C(r.range(0, 2))))
+                hi = simp(B("add", L(pl), C(r.range(0, 2))))
+                st = 1
+            else:                                     # bound through a derived local
+                pl, plo, pst = info[-1]
+                c.locals.append(Local("h%d" % d, 'V', e=simp(B("add", B("mul", L(pl), C(r.pick([1, 2, -1]))), C(r.range(0, 3))))))
+                hl = len(c.locals) - 1
+                lo = B("min", L(hl), C(r.range(-2, 2)))
+                hi = simp(B("add", lo, C(st * (size - 1))))
+            c.locals.append(Local(pnames[d], 'R', lo, hi, C(st)))
+            li = len(c.locals) - 1
+            plist.append(li)
+            info.append((li, lo if lo[0] == 'c' or lo[0] == 'b' and all(x[0] != 'l' for x in _leaves(lo)) else C(0), st))
+            if r.chance(1, 4):
+                c.locals.append(Local("w%d" % d, 'V', e=simp(B("sub", B("mul", L(li), C(3)), C(1)))))
+        if allow_derived_param and r.chance(1, 5):    # a parameter defined by an expression
+            pos = r.range(1, len(c.locals))
+            prev = [i for i in plist if i < pos]
+            if prev:
+                e = simp(B("add", B("mul", L(prev[-1]), C(r.pick([1, 2, -1]))), C(r.range(-2, 3))))
+                c.locals.insert(pos, Local("z", 'V', e=e))
+                # renumber the references of the locals behind the insertion point
+                for l in c.locals[pos + 1:]:
+                    m = {i: L(i if i < pos else i + 1) for i in range(len(c.locals))}
+                    if l.kind == 'R':
+                        l.lo, l.hi, l.st = subst_locals(l.lo, m), subst_locals(l.hi, m), subst_locals(l.st, m)
+                    else:
+                        l.e = subst_locals(l.e, m)
+                plist = [i if i < pos else i + 1 for i in plist]
+                plist = sorted(plist + [pos])
+        c.params = list(plist)
+        if allow_permuted and len(plist) > 1 and r.chance(1, 5):
+            c.params = r.shuffle(plist)
+        c.flows.append(Flow("A", 'R', [Dep(True, None, ('M', [C(0)]))]))
+        if r.chance(1, 3):
+            c.prio = L(plist[0])
+    g.data_next = max(g.data_next, 1)
+
+
+def _leaves(e):
+    if e[0] == 'b':
+        return _leaves(e[2]) + _leaves(e[3])
+    if e[0] == 'n':
+        return _leaves(e[1])
+    if e[0] == 't':
+        return _leaves(e[1]) + _leaves(e[2]) + _leaves(e[3])
+    return [e]
+
+
+def has_derived_param(c):
+    return any(c.locals[i].kind == 'V' for i in c.params)
+
+
+def header_permuted(c):
+    return list(c.params) != sorted(c.params)
+
+
 if __name__ == "__main__":
     sys.path.insert(0, __file__.rsplit("/", 2)[0] + "/lib")
     from vcheck import Rng
